@@ -1,5 +1,5 @@
 /- Line-protocol handler for the `cascade` stream (C05).
-   request : `cascade <shell types, e.g. 0c,1c,2p> <ok bits, one per attempt of Gen.cascade>`
+   request : `cascade <shell types, e.g. 0c,1c,2p> <norm-test outcome per variant, e.g. raw/raw:0,orca/raw:1,...>`
    response: `tests=<basis>/<coeff>:<0|1>,... out=<idx>:<warning|none> store=<basis>/<coeff>` (`raw` = as read)  or  `... out=LoadError` -/
 import Iodata.Model.Cascade
 import Iodata.Gen.Cascade
@@ -13,7 +13,14 @@ def parseType (s : String) : ShellType :=
 
 def parseTypes (s : String) : List ShellType := if s == "@" then [] else (s.splitOn ",").map parseType
 
-def okOf (bits : String) : Nat → Bool := fun i => (bits.toList.getD i '0') == '1'
+/-- `raw/raw:0,orca/raw:1,...` : outcome of the norm test per tested (basis, coefficient) variant; the
+oracle of attempt `i` is looked up by the variant that attempt tests (absent = false) -/
+def okOf (as : List Attempt) (spec : String) : Nat → Bool := fun i =>
+  match as[i]? with
+  | none => false
+  | some a =>
+    let key := s!"{a.testBasis.show}/{a.testCoeff.show}"
+    (spec.splitOn ",").any fun e => e == key ++ ":1"
 
 def showTests (as : List Attempt) (ts : List (Nat × Bool)) : String :=
   ",".intercalate (ts.map fun t =>
@@ -32,9 +39,9 @@ def showOutcome : Outcome → String
 def handle : List String → Option String
   | ["cascade", types, bits] =>
     let sh := parseTypes types
-    let ok := okOf bits
     let T := Iodata.Gen.Cascade.tables
     let as := Iodata.Gen.Cascade.cascade
+    let ok := okOf as bits
     some (s!"tests={showTests as (testsFrom T sh ok 0 as)} " ++ showOutcome (run T as sh ok))
   | ["cascade-scales", types] =>
     -- per basis fix, the scale descriptor of every shell
